@@ -10,6 +10,7 @@ mod bytes;
 mod conc;
 mod crash;
 mod drip;
+mod e2e;
 mod fsink;
 mod graphs;
 mod hdlc;
@@ -26,6 +27,15 @@ fn main() {
         Some("ring") => ring::run(&args),
         Some("blocks") => blocks::run(&args),
         Some("sched") => sched::run(&args),
+        Some("e2e") => e2e::run(&args),
+        Some("digital") => {
+            e2e::digital_probe(&args);
+            vec![]
+        }
+        Some("symsync") => {
+            e2e::symsync_probe(&args);
+            vec![]
+        }
         Some("crash") => crash::run(&args),
         Some("bytes") => bytes::run(&args),
         Some("vm") => vm::run(&args),
